@@ -225,6 +225,10 @@ def natlit(n: int) -> str:
 
 
 def coq_list(items, elem=str) -> str:
+    items = list(items)
+    if len(items) == 1:
+        # `[x]` is also the notation of BigZ.to_Z / BigN.to_Z in the bignum scopes: write a singleton in cons form
+        return "(" + elem(items[0]) + " :: nil)"
     return "[" + "; ".join(elem(i) for i in items) + "]"
 
 
